@@ -449,6 +449,10 @@ def check(ctx, rep):
     rule_codec_agree(ctx, rep)
     rule_exit_zero(ctx, rep)
     rule_scan_tolerant(ctx, rep)
+    from .c12 import MANIFEST_MODULES, rule_every_input_read
+
+    # one unreadable dependency manifest must not end the discovery of the others (they decide which store is written)
+    rule_every_input_read(ctx, rep, modules=MANIFEST_MODULES, min_loops=1)
     rep.not_covered += [
         "that other files get byte-identical outcomes under a fault (runtime behaviour)",
         "faults inside semgrep / result-file loading (raised before per-file processing)",
